@@ -81,14 +81,22 @@ class SimThread(object):
         self.daemon = daemon
         self._th = None
 
+    def run(self):
+        if self._target is not None:
+            self._target(*self._args, **self._kwargs)
+
     def start(self):
         if self._th is not None:
             raise RuntimeError('threads can only be started once')
         w = self._w
         w.count('thread_start')
-        self._th = w.k.spawn(lambda: self._target(*self._args, **self._kwargs),
-                             self.name, group=w.k.me().group if w.k.me() else 'client', traced=True)
-        w.starters.append(self._th)
+        me = w.k.me()
+        group = me.group if me else 'client'
+        in_child = group in w.proc_by_group
+        self._th = w.k.spawn(self.run, self.name, group=group, traced=not in_child)
+        self._th.daemon = bool(self.daemon)
+        if not in_child:
+            w.starters.append(self._th)
         w.k.yield_point(('prim', 'thread.start'))
 
     def join(self, timeout=None):
@@ -102,6 +110,24 @@ class SimThread(object):
 
     def is_alive(self):
         return self._th is not None and not self._th.finished
+
+
+class SimTimer(SimThread):
+    """threading.Timer inside a simulated process: fires after `interval` simulated seconds unless cancelled."""
+    def __init__(self, interval, function, args=None, kwargs=None):
+        SimThread.__init__(self, target=function, args=args or (), kwargs=kwargs or {}, name='timer')
+        self.interval = interval
+        self._cancelled = False
+
+    def run(self):
+        self._w.count('timer_armed')
+        self._w.k.block(lambda: self._cancelled, self.interval, ('prim', 'timer.wait'))
+        if not self._cancelled:
+            self._w.count('timer_fired')
+            SimThread.run(self)
+
+    def cancel(self):
+        self._cancelled = True
 
 
 class FakeConn(object):
@@ -349,6 +375,10 @@ class World(object):
                 if never:
                     self.k.block(lambda: False, None, ('prim', 'child.hung'))
                 self.run_server_main(p)
+                # a process lives as long as one of its non-daemon threads
+                self.k.block(lambda: not any(t for t in self.k.threads
+                                             if t.group == p.group and t is not p.thread and not t.finished
+                                             and not t.dead and not t.daemon), None, ('prim', 'child.wait-threads'))
                 p.returncode = 0
             except KernelAbort:
                 raise
@@ -388,8 +418,9 @@ class World(object):
         import supp.remote as remote
         World.current = self
         w = self
+        import threading
         self._saved = (subprocess.Popen, mc.Client, mc.Listener, mc.arbitrary_address,
-                       remote.Thread, remote.Lock, remote.time, sys.argv)
+                       remote.Thread, remote.Lock, remote.time, sys.argv, threading.Thread, threading.Timer)
 
         def Popen(args, env=None, **kw):
             return w.Popen(args, env=env, **kw)
@@ -418,13 +449,17 @@ class World(object):
         remote.Lock = lambda: SimLock(w)
         remote.time = SimTime(w)
         sys.argv = ArgvProxy(sys.argv)
+        # threads and timers created by code running inside a simulated process (the kernel keeps the real class)
+        threading.Thread = SimThread
+        threading.Timer = SimTimer
 
     def uninstall(self):
         import subprocess
         import multiprocessing.connection as mc
         import supp.remote as remote
+        import threading
         (subprocess.Popen, mc.Client, mc.Listener, mc.arbitrary_address,
-         remote.Thread, remote.Lock, remote.time, sys.argv) = self._saved
+         remote.Thread, remote.Lock, remote.time, sys.argv, threading.Thread, threading.Timer) = self._saved
         World.current = None
 
 
